@@ -1,5 +1,6 @@
 mod alloc;
 mod auth;
+mod journal;
 mod oracle;
 mod panics;
 mod rng;
@@ -237,6 +238,10 @@ fn main() {
             for v in &r2.violations {
                 println!("VIOLATION {v:?}");
             }
+        }
+        "journal" => {
+            let code = journal::main(&args[2..]);
+            std::process::exit(code);
         }
         "auth" => {
             let code = auth::main(&args[2..]);
